@@ -515,7 +515,24 @@ var errUseCodecAllowed = map[string]string{
 func ruleERRUSECODEC(p *Program, r *Reporter) {
 	const id = "ERR-USE-CODEC"
 	want := map[string]bool{"ovsdb": true, "mapper": true}
+	errT := types.Universe.Lookup("error").Type()
 	discoverErrUse(p, want, func(fn *ssa.Function, ev ssa.Value, iff *ssa.If, used, returns bool) {
+		// only functions that can report a failure are obliged to: a function (or the closure
+		// of one) without an error result has nowhere to put it
+		top := fn
+		for top.Parent() != nil {
+			top = top.Parent()
+		}
+		hasErr := false
+		for _, g := range []*ssa.Function{fn, top} {
+			res := g.Signature.Results()
+			if res.Len() > 0 && types.Identical(res.At(res.Len()-1).Type(), errT) {
+				hasErr = true
+			}
+		}
+		if !hasErr {
+			return
+		}
 		name := "error"
 		switch x := ev.(type) {
 		case *ssa.Call:
@@ -1575,4 +1592,101 @@ func ruleCHCLOSE(p *Program, r *Reporter) {
 			ifs(!sent, "nothing sends on this channel: closing it only wakes its receivers", "this channel is closed here while "+p.Pos(pos)+" sends on it: a send that races with the close panics with \"send on closed channel\""))
 	}
 	r.Count(id, 1) // the census of field channels is the obligation, also when nothing is closed
+}
+
+// ---------------------------------------------------------------------------
+// V-JOIN — TableCache.Run does not return before the event processor has
+// stopped: the processor's Run is called directly, or it is started with go and
+// every return of TableCache.Run is dominated by a WaitGroup.Wait whose Done the
+// goroutine calls. The client waits for TableCache.Run before it reconnects; if
+// the dispatcher outlives it, two dispatchers drain one queue and events come
+// out of order.
+
+func ruleVJOIN(p *Program, r *Reporter) {
+	const id = "V-JOIN"
+	run := p.Fn("cache", "TableCache", "Run")
+	epRun := p.Fn("cache", "eventProcessor", "Run")
+	if run == nil || epRun == nil {
+		r.Anchor(id, "cache.(*TableCache).Run / (*eventProcessor).Run")
+		return
+	}
+	callsEpRun := func(g *ssa.Function) bool {
+		for _, h := range p.Reach(g) {
+			for _, b := range h.Blocks {
+				for _, ins := range b.Instrs {
+					if c, ok := ins.(ssa.CallInstruction); ok && c.Common().StaticCallee() == epRun {
+						return true
+					}
+				}
+			}
+		}
+		return false
+	}
+	isWG := func(ins ssa.Instruction, name string) bool {
+		c, ok := ins.(ssa.CallInstruction)
+		if !ok {
+			return false
+		}
+		sc := c.Common().StaticCallee()
+		return sc != nil && sc.Name() == name && sc.Pkg != nil && sc.Pkg.Pkg.Path() == "sync" && sc.Signature.Recv() != nil && isNamed(deref(sc.Signature.Recv().Type()), "sync", "WaitGroup")
+	}
+	direct, viaGo, goDone := false, false, false
+	var waits []*ssa.BasicBlock
+	for _, b := range run.Blocks {
+		for _, ins := range b.Instrs {
+			switch x := ins.(type) {
+			case *ssa.Call:
+				if x.Call.StaticCallee() == epRun {
+					direct = true
+				} else if fns, _ := p.Callees(x); len(fns) > 0 {
+					for _, f := range fns {
+						if f != nil && pkgOf(f) == "cache" && f != run && callsEpRun(f) && !isWG(x, "Wait") {
+							direct = true
+						}
+					}
+				}
+				if isWG(x, "Wait") {
+					waits = append(waits, b)
+				}
+			case *ssa.Go:
+				fns, _ := p.Callees(x)
+				for _, f := range fns {
+					if f != nil && (f == epRun || callsEpRun(f)) {
+						viaGo = true
+						for _, h := range p.Reach(f) {
+							for _, hb := range h.Blocks {
+								for _, hi := range hb.Instrs {
+									if isWG(hi, "Done") {
+										goDone = true
+									}
+								}
+							}
+						}
+					}
+				}
+			}
+		}
+	}
+	if !direct && !viaGo {
+		r.Anchor(id, "TableCache.Run does not reach eventProcessor.Run")
+		return
+	}
+	for _, b := range run.Blocks {
+		ret, ok := b.Instrs[len(b.Instrs)-1].(*ssa.Return)
+		if !ok || isRecoverBlock(b) {
+			continue
+		}
+		ok2 := direct && !viaGo
+		if viaGo {
+			joined := false
+			for _, w := range waits {
+				if w == b || w.Dominates(b) {
+					joined = true
+				}
+			}
+			ok2 = joined && goDone
+		}
+		r.Ob(id, funcName(run), "returns only after the event processor stopped", ret.Pos(), ok2, true,
+			ifs(ok2, "the processor runs in this goroutine, or its goroutine is waited for before returning", "TableCache.Run can return while the event processor it started is still running: the client reconnects and starts a second one on the same queue, and handlers see events out of order"))
+	}
 }
